@@ -786,6 +786,7 @@ func (g *gen) requests(sc Scenario, views []fracView, tier string) []request {
 // ------------------------------------------------------------------------------------------ running
 
 type result struct {
+	pre        string // definitions the case term refers to (long lists in pieces)
 	coq        string
 	class      string
 	nontrivial bool
@@ -837,6 +838,36 @@ func coqFracs(views []fracView) string {
 	return sb.String()
 }
 
+// chunked renders a long list literal as definitions of pieces (a literal of 100k elements overflows the
+// stack of Coq's type checker) and returns the preamble and the name of the whole list.
+func chunked(name, typ string, n int, item func(i int) string) (pre, term string) {
+	const piece = 2000
+	var sb strings.Builder
+	var parts []string
+	for lo := 0; lo < n; lo += piece {
+		hi := min(n, lo+piece)
+		pn := fmt.Sprintf("%s_%d", name, lo/piece)
+		fmt.Fprintf(&sb, "Definition %s : list (%s) := [", pn, typ)
+		for i := lo; i < hi; i++ {
+			if i > lo {
+				sb.WriteString(";")
+			}
+			sb.WriteString(item(i))
+		}
+		sb.WriteString("].\n")
+		parts = append(parts, pn)
+	}
+	fmt.Fprintf(&sb, "Definition %s : list (%s) := concat [%s].\n", name, typ, strings.Join(parts, "; "))
+	return sb.String(), name
+}
+
+func sentItem(e [4]uint64) string {
+	if e[2] == 0 && e[3] == 0 {
+		return fmt.Sprintf("X %d %d", e[0], e[1])
+	}
+	return fmt.Sprintf("F %d %d %d %d", e[0], e[1], e[2], e[3])
+}
+
 func coqIDs(ids []ReqID) string {
 	var sb strings.Builder
 	sb.WriteString("[")
@@ -872,9 +903,9 @@ func runScenario(seed uint64, tier string, idx int, kind string, cs constsResp) 
 	sc := g.scenario(kind)
 	if tier == "thorough" && kind == "small" {
 		switch {
-		case idx%100 == 1:
+		case idx == 1:
 			sc.Huge = 100000
-		case idx%25 == 2:
+		case idx%50 == 2:
 			sc.Huge = 20000
 		}
 	}
@@ -1018,8 +1049,19 @@ func runScenario(seed uint64, tier string, idx int, kind string, cs constsResp) 
 		if resp.LensErr != "" {
 			lens = append(lens, 0) // a batch carrying an error
 		}
-		res.coq = fmt.Sprintf("CFetch %s frs\n   %s\n   (%s %s) (Some %s)", cfg, coqIDs(rq.ids), status,
-			coqSent(resp.Sent), strings.TrimSuffix(casefile.NList(lens), "%N"))
+		idsTerm, sentTerm := coqIDs(rq.ids), coqSent(resp.Sent)
+		if len(rq.ids) > 3000 {
+			var p1, p2 string
+			p1, idsTerm = chunked(fmt.Sprintf("ids%d", ri), "idsrc", len(rq.ids), func(i int) string {
+				return fmt.Sprintf("Q %d %d %d", rq.ids[i].MID, rq.ids[i].RID, rq.ids[i].Hint)
+			})
+			p2, sentTerm = chunked(fmt.Sprintf("sent%d", ri), "id * option body", len(resp.Sent), func(i int) string {
+				return sentItem(resp.Sent[i])
+			})
+			res.pre = p1 + p2
+		}
+		res.coq = fmt.Sprintf("CFetch %s frs\n   %s\n   (%s %s) (Some %s)", cfg, idsTerm, status,
+			sentTerm, strings.TrimSuffix(casefile.NList(lens), "%N"))
 		found := 0
 		for _, e := range resp.Sent {
 			if e[3] > 0 {
